@@ -220,7 +220,7 @@ bool_t H4_NCcoordck(NC *handle, NC_var *vp, const long *coords)
                        ((__CPROVER_old(handle->flags) & NC_NOFILL)
                             ? (g_hw_n == 0 && g_seek_n == 0)
                             : ((long)g_hw_n == coords[0] - __CPROVER_old(vp->numrecs) + 1 && g_hw_ok == g_hw_n &&
-                               g_seek_n == 1 && g_seek_off == __CPROVER_old(vp->numrecs) * (int)vp->len))))
+                               g_seek_n == 1))))
     /* (9) NC_NDIRTY is raised exactly when the file-wide record count grew; no other flag moves */
     __CPROVER_ensures((__CPROVER_return_value == TRUE && C03_REC(vp)) ==>
                       handle->flags == ((coords[0] + 1 > (long)__CPROVER_old(handle->numrecs))
@@ -407,6 +407,9 @@ mk_env(void)
     g_vp         = vp;
     g_nr0        = v_numrecs;
     g_reclen     = (int32)v_len;
+#ifdef C03_RECLEN /* experiment / bounded variants: constant record geometry */
+    H4V_ASSUME(v_len == C03_RECLEN && v_HDFsize == 4 && v_szof == 4);
+#endif
     /* a _FillValue attribute the NC_findattr stub may hand out */
     g_attr        = malloc(sizeof(NC_attr));
     g_attrp       = malloc(sizeof(NC_attr *));
